@@ -21,7 +21,7 @@ CHECKS = {
          "Each (grammar, options, args) is generated repeatedly in separate processes under GOMAXPROCS 1/2/4/16 and seeded perturbation of the two analysis goroutines; exit, stderr and sha256(stdout) must be identical; the same under the race detector (hook without synchronisation); concurrent Compile calls on independent trees in one -race process must equal the sequential results with zero reports.",
          "Held on the schedules produced (counted in the evidence); races on schedules never produced are not excluded; no bit-for-bit replay (rr unavailable).", "5/C09"),
  "C15": ("exploration", "reference-model monitor on the CLI's diagnostics: planted grammars, stderr/exit observed, ground truth from an independent grammar analysis",
-         "The real CLI is run with and without -strict on grammars with planted undefined names, unreachable rules/cycles, left-recursive cycles under every operator behind nullable/consuming prefixes, duplicate definitions and clean grammars; the sets of (kind, rule) parsed from stderr must equal gram's own analysis; exit codes, silence and complete output are checked; panics are violations.",
+         "The real CLI is run with and without -strict on grammars with planted undefined names, unreachable rules/cycles, left-recursive cycles under every operator behind nullable/consuming prefixes, duplicate definitions, rule names that look like peg's own, a rule referenced exactly 2^8/2^16 times, and clean grammars; the sets of (kind, rule) parsed from stderr must equal gram's own analysis; exit codes, silence and complete output are checked; panics are violations.",
          "Held on the grammars produced; shapes where syntactic and semantic nullability coincide (DESIGN 6.3).", "5/C15"),
  "C18": ("fault_enumeration", "process-boundary monitor over a source x destination x option matrix plus single-fault enumeration with strace syscall injection (ground truth of fired faults from the strace log)",
          "Every cell of the matrix and every single injected fault (openat/read/write/close with ENOSPC, EIO, EACCES, EMFILE, ENOENT on the source and destination paths; all N for short sequences, sampled N for the thousands of destination writes, all N in the thorough tier) is executed against the real binary; status 0 must imply a destination byte-identical to the fault-free output, every failure must give non-zero status and a message.",
@@ -42,22 +42,22 @@ CHECKS = {
          "Tree shape and the exact printed text (Sprint/Write/Print/Pretty via a stdout pipe) are compared with the reference tree for unit chains, zero-width siblings, deep nesting and multi-byte input.",
          "Held on the executions produced; nesting depth bounded (60 levels x chain length).", "5/C05"),
  "C06": ("exploration", "differential monitor memo vs DisableMemoize + in-parser rule-entry observer (grammar-embedded predicate) that makes memo hits observable",
-         "Same compiled parser, memo on/off: verdict, tokens, error token equal and equal to the reference; the observer log proves hits happened: with memo each (rule, offset) body is entered exactly once, in first-visit order.",
+         "Same compiled parser, memo on/off: verdict, tokens, error token equal and equal to the reference; the observer log proves hits happened: with memo each (rule, offset) body is entered exactly once, in first-visit order; entry rules tried in turn on one instance compared attempt by attempt with and without memoisation; rule applications spanning 2^8 and 2^16 runes replayed from the memo table.",
          "Held on the executions produced; observer predicates are always true.", "5/C06"),
  "C07": ("exploration", "reference-model monitor on inline event traces of -noast parsers (probe actions, position probes via state changes)",
-         "Verdict/prefix of the four -noast combinations vs the reference and the default parser; inline event list equals the reference's time-ordered list for -noast and -noast -inline; trace-internal + containment oracle for the -switch combinations.",
+         "Verdict/prefix of the four -noast combinations vs the reference and the default parser; inline event list equals the reference's time-ordered list for -noast and -noast -inline; trace-internal + containment oracle for the -switch combinations; reused and re-initialised -noast instances; entry rules tried in turn on one -noast instance.",
          "Held on the executions produced; weaker (but sound) oracle for the inline trace under -switch, see DESIGN 5/C07.", "5/C07"),
  "C11": ("exploration", "reference-model monitor on rejected inputs: probe reads parseError.maxToken and Error()",
          "For every rejected input the error's dynamic type, its token (vs the reference's furthest token) and the exact message with independently recomputed line/column are checked, Pretty on/off, memo on/off, -inline exactly and -switch with the documented weakening; panics while formatting are caught.",
          "Held on the executions produced; line/column convention stated in the evidence assumptions.", "5/C11"),
  "C12": ("exploration", "history monitor: one long-lived instance vs a fresh instance per input, across U and Size instantiations",
-         "Histories of 6-40 inputs (fail->success, long->short, repeats, empty) on one instance under 4 integer types x 3 sizes x memo on/off; every step must equal the fresh-instance observation (verdict, tokens, tree, print, trace, error token, message).",
-         "Held on the histories produced; inputs fit uint16.", "5/C12"),
+         "Histories of 6-40 inputs (fail->success, long->short, repeats, empty, inputs of 254/255/256 runes, one of >65535 tokens) and histories of 260 Resets on one instance under 5 integer types (uint8..uint64, uint) x 3 sizes x memo on/off; every step must equal the fresh-instance observation (verdict, tokens, tree, print, trace, error token, message), and an error kept by the caller must still read the same after the whole history.",
+         "Held on the histories produced; a step is run under U only when its input fits U (255 runes for uint8).", "5/C12"),
  "C14": ("exploration", "Go race detector + differential monitor (concurrent result == result alone) over stress batches",
-         "Runner built with -race; 2/8/32 goroutines run fresh and long-lived instances of the same and of different parser types at once; every result must equal the sequential one and the detector must stay silent; evidence reports how many calls really overlapped.",
+         "Runner built with -race; 2/8/32 goroutines run fresh and long-lived instances of the same and of different parser types at once; every result must equal the sequential one and the detector must stay silent; a batch prints trees (also deeper than 64 levels) to the shared standard output while a few owners break their own instance next to the healthy ones; a child that stops using the CPU is reported as blocked; evidence reports how many calls really overlapped.",
          "Held on the schedules the Go scheduler produced here; the monitor adds no synchronisation between the goroutines.", "5/C14"),
  "C16": ("exploration", "reference-model monitor (bit-vector set) over bounded-exhaustive + random operation sequences on the real package",
-         "Every observable of the real set package (Has on every point, Len, String, Copy, Union, Intersects, Complement, Equal, operand preservation, panics, non-termination) is compared with a bit-vector model after every operation; the sub-space universe 0..6 / <=3 insertions / all pairs of <=2-insertion sets is enumerated completely, the rest is random (incl. the 0x10FFFF/0x110000 neighbourhood peg itself uses and inverted ranges).",
+         "Every observable of the real set package (Has on every point, Len, String, Copy, Union, Intersects, Complement, Equal, operand preservation, panics, non-termination) is compared with a bit-vector model after every operation; the sub-space universe 0..6 / <=3 insertions / all pairs of <=2-insertion sets is enumerated completely, the rest is random (incl. live sequences in which queries, copies, unions and complements are interleaved with further insertions on three shadowed sets, the top of the int32 rune range, and the 0x10FFFF/0x110000 neighbourhood peg itself uses and inverted ranges).",
          "Held on the executions produced; trusted: the 40-line bit-vector model in drivers/setdrv. Elements are non-negative runes.", "5/C16"),
 }
 NOT_YET = {}
